@@ -14,3 +14,6 @@ pub mod c35;
 pub mod c28;
 pub mod c11;
 pub mod c12;
+pub mod c22;
+pub mod c20;
+pub mod c03;
